@@ -169,6 +169,10 @@ theorem T_C20_ring_contract_strict (tol rnew rsrc : Rat) (htol : 0 < tol) :
     linarith
 
 
+/-- non-vacuity: the library's tolerance is positive; 0.3 is an accepted contraction of a ring of inner radius 0.5 -/
+example : (0 : Rat) < 1 / 10000000 ∧ (run (1 / 10000000) (.ringContract (3 / 10) (1 / 2))).isReject = false := by
+  decide +kernel
+
 /-! ### symmetric conditions: coplanar / perpendicular within the tolerance, on both sides -/
 
 /-- `Face(..., check_coplanar=True)`: rejected iff the triple product leaves [-tol, tol] on either side -/
@@ -195,6 +199,28 @@ theorem T_C20_frustum_perp (tol : Rat) (a1 a2 rp : V3) :
   simp only [run, checks_isReject, List.any_cons, List.any_nil, Bool.or_false, Bool.or_eq_true,
     decide_eq_true_eq, isZero_iff, absR_gt_iff]
   tauto
+
+/-- the symmetry itself: two radius points whose deviations from perpendicularity are opposite get the same verdict
+    from `Cylinder` and from `Frustum` -/
+theorem T_C20_perp_symmetric (tol : Rat) (a1 a2 rp rp' : V3)
+    (hdot : V3.dot (a2 - a1) (rp' - a1) = -V3.dot (a2 - a1) (rp - a1))
+    (hzero : rp' - a1 = V3.zero ↔ rp - a1 = V3.zero) :
+    (run tol (.cylinder a1 a2 rp')).isReject = (run tol (.cylinder a1 a2 rp)).isReject ∧
+    (run tol (.frustum a1 a2 rp')).isReject = (run tol (.frustum a1 a2 rp)).isReject := by
+  constructor <;> rw [Bool.eq_iff_iff]
+  · rw [T_C20_cylinder_perp, T_C20_cylinder_perp, hdot, not_iff_not]
+    constructor <;> rintro ⟨h1, h2, h3, h4⟩
+    · exact ⟨h1, fun h => h2 (hzero.mpr h), by linarith, by linarith⟩
+    · exact ⟨h1, fun h => h2 (hzero.mp h), by linarith, by linarith⟩
+  · rw [T_C20_frustum_perp, T_C20_frustum_perp, hdot, not_iff_not]
+    constructor <;> rintro ⟨h1, h2, h3, h4⟩
+    · exact ⟨h1, fun h => h2 (hzero.mpr h), by linarith, by linarith⟩
+    · exact ⟨h1, fun h => h2 (hzero.mp h), by linarith, by linarith⟩
+
+example : V3.dot ((⟨0, 0, 1⟩ : V3) - ⟨0, 0, 0⟩) ((⟨1, 0, -1 / 2⟩ : V3) - ⟨0, 0, 0⟩)
+      = -V3.dot ((⟨0, 0, 1⟩ : V3) - ⟨0, 0, 0⟩) ((⟨1, 0, 1 / 2⟩ : V3) - ⟨0, 0, 0⟩) ∧
+    (((⟨1, 0, -1 / 2⟩ : V3) - ⟨0, 0, 0⟩ = V3.zero) ↔ ((⟨1, 0, 1 / 2⟩ : V3) - ⟨0, 0, 0⟩ = V3.zero)) := by
+  decide +kernel
 
 /-- the guard as it was before the repair (`diff > TOL` without `abs`) -/
 def cylinderOld (tol : Rat) (a1 a2 rp : V3) : Out :=
@@ -305,6 +331,10 @@ theorem T_C20_annulus_radii (tol : Rat) (c p n : V3) (rin : Rat) (nseg : Int) (s
     rintro ⟨_, _, _, h4, h5, _⟩
     have := ((T_C20_radii_squared tol rin s (p - c) hs hss h4 htol.le).2).mpr h5
     linarith
+
+/-- non-vacuity: a ring with outer radius 5 (root witness of |(3,4,0)|² = 25), inner radius 2, is accepted -/
+example : (0 : Rat) < 1 / 10000000 ∧ (0 : Rat) ≤ 5 ∧ (5 : Rat) * 5 = V3.norm2 ((⟨3, 4, 0⟩ : V3) - ⟨0, 0, 0⟩) ∧
+    (run (1 / 10000000) (.annulus ⟨0, 0, 0⟩ ⟨3, 4, 0⟩ ⟨0, 0, 2⟩ 2 8)).isReject = false := by decide +kernel
 
 /-! ### lists of corners, side names -/
 
@@ -635,6 +665,10 @@ theorem T_C20_mesh_guard (before after : List MeshOp) (op : MeshOp) (hop : op = 
   · simp only [meshRun, meshStep, List.getElem?_cons_zero, h]
   · simp only [meshRun, meshStep, List.getElem?_cons_zero, h]
     cases assembledSpec before.reverse <;> simp
+
+/-- non-vacuity: a concrete history in which `grade` is first rejected, then accepted, then rejected again -/
+example : meshRun {} [.grade, .add, .assemble, .grade, .clear, .backport] =
+    [.reject "RuntimeError", .accept, .accept, .accept, .accept, .reject "RuntimeError"] := by decide
 
 /-- all other calls of the history are always accepted -/
 theorem T_C20_mesh_others (s : MeshSt) (op : MeshOp) (h : op = .add ∨ op = .assemble ∨ op = .clear) :
